@@ -71,6 +71,9 @@ pub struct Case {
     /// told that the connection is gone (one more close initiator, inside the teardown)
     #[serde(default)]
     pub noblock: bool,
+    /// the endpoint announced a Topic Alias Maximum of 0 (aliases switched off) instead of 4
+    #[serde(default)]
+    pub no_aliases: bool,
 }
 
 fn fail(c: &Case, rule: &str, detail: String) -> Failure {
@@ -182,7 +185,7 @@ pub async fn run_case(c: Case) -> Result<CaseInfo, Failure> {
     cfg.v5.max_qos = 1;
     cfg.v5.max_size = 512;
     cfg.v5.max_receive = 1;
-    cfg.v5.max_topic_alias = 4;
+    cfg.v5.max_topic_alias = if c.no_aliases { 0 } else { 4 };
     cfg.v5.no_retain = true;
     cfg.v5.no_sub_ids = true;
     cfg.v5.connect.session_expiry = c.connect_expiry.then_some(60);
@@ -194,7 +197,7 @@ pub async fn run_case(c: Case) -> Result<CaseInfo, Failure> {
         // the client's own limits travel in its CONNECT
         cfg.v5.connect.max_packet_size = Some(512);
         cfg.v5.connect.receive_max = Some(1);
-        cfg.v5.connect.topic_alias_max = Some(4);
+        cfg.v5.connect.topic_alias_max = if c.no_aliases { None } else { Some(4) };
         cfg.v5.connack.max_qos = Some(1);
     }
     let eut = Eut::start(c.role, &cfg).await;
@@ -367,13 +370,16 @@ fn all_cases(thorough: bool) -> Vec<Case> {
             for stop in stops {
                 for connect_expiry in [false, true] {
                     for hold_stop in [false, true] {
-                        out.push(Case { role, inits: vec![*a], seps: vec![2], stop, connect_expiry, hold_stop, connack_expiry: None, noblock: false });
+                        out.push(Case { role, inits: vec![*a], seps: vec![2], stop, connect_expiry, hold_stop, connack_expiry: None, noblock: false, no_aliases: false });
+                        if *a == Init::UnknownAlias {
+                            out.push(Case { role, inits: vec![*a], seps: vec![2], stop, connect_expiry, hold_stop, connack_expiry: None, noblock: false, no_aliases: true });
+                        }
                         if !hold_stop {
-                            out.push(Case { role, inits: vec![*a], seps: vec![2], stop, connect_expiry, hold_stop, connack_expiry: None, noblock: true });
+                            out.push(Case { role, inits: vec![*a], seps: vec![2], stop, connect_expiry, hold_stop, connack_expiry: None, noblock: true, no_aliases: false });
                         }
                         if role == Role::V5Server && matches!(a, Init::PeerDisconnect(_) | Init::PeerDisconnectHeld) {
                             for ce in [0u32, 30] {
-                                out.push(Case { role, inits: vec![*a], seps: vec![2], stop, connect_expiry, hold_stop, connack_expiry: Some(ce), noblock: false });
+                                out.push(Case { role, inits: vec![*a], seps: vec![2], stop, connect_expiry, hold_stop, connack_expiry: Some(ce), noblock: false, no_aliases: false });
                             }
                         }
                     }
@@ -386,7 +392,7 @@ fn all_cases(thorough: bool) -> Vec<Case> {
                 for sep in 0..3u8 {
                     for stop in stops {
                         for hold_stop in [false, true] {
-                            out.push(Case { role, inits: vec![*a, *b], seps: vec![sep, 2], stop, connect_expiry: false, hold_stop, connack_expiry: None, noblock: false });
+                            out.push(Case { role, inits: vec![*a, *b], seps: vec![sep, 2], stop, connect_expiry: false, hold_stop, connack_expiry: None, noblock: false, no_aliases: false });
                         }
                     }
                 }
@@ -397,7 +403,7 @@ fn all_cases(thorough: bool) -> Vec<Case> {
                 for b in &inits {
                     for d in &inits {
                         for seps in [[0u8, 0], [0, 2], [2, 0], [1, 1], [2, 2]] {
-                            out.push(Case { role, inits: vec![*a, *b, *d], seps: vec![seps[0], seps[1], 2], stop: StopAnswer::None, connect_expiry: false, hold_stop: seps[0] == 2, connack_expiry: None, noblock: false });
+                            out.push(Case { role, inits: vec![*a, *b, *d], seps: vec![seps[0], seps[1], 2], stop: StopAnswer::None, connect_expiry: false, hold_stop: seps[0] == 2, connack_expiry: None, noblock: false, no_aliases: false });
                         }
                     }
                 }
@@ -417,7 +423,7 @@ fn case_strategy(role: Role) -> BoxedStrategy<Case> {
         any::<bool>(),
         prop::option::weighted(0.3, prop::sample::select(vec![0u32, 30])),
     )
-        .prop_map(move |(inits, seps, stop, connect_expiry, hold_stop, ce)| Case { role, inits, seps, stop, connect_expiry, hold_stop, connack_expiry: if role == Role::V5Server { ce } else { None }, noblock: false })
+        .prop_map(move |(inits, seps, stop, connect_expiry, hold_stop, ce)| Case { role, inits, seps, stop, connect_expiry, hold_stop, connack_expiry: if role == Role::V5Server { ce } else { None }, noblock: false, no_aliases: false })
         .boxed()
 }
 
